@@ -12,6 +12,7 @@ pub mod c07;
 pub mod c08;
 pub mod c09;
 pub mod c10;
+pub mod c10f;
 pub mod c11;
 pub mod c12;
 pub mod c13;
